@@ -10,6 +10,7 @@ def main():
         if len(sys.argv) > 3:
             RUN.perturb_stream(ctx, base, int(sys.argv[3]))
         print(json.dumps(ctx.coverage.get("distribution"), indent=1))
+        print(ctx.coverage.get("wall_by_side_s"))
         print("violations", len(ctx.violations), "known", ctx.known_hits)
     finally:
         ctx.cleanup()
